@@ -11,12 +11,13 @@ import (
 
 // Plan is what one invocation explores.
 type Plan struct {
-	Prop  string
-	Tier  string
-	Seed  uint64
-	Out   *Out
-	Types []*TypeEntry // generated inspectors (shipped, fresh, grammar)
-	Lib   []*TypeEntry // built-in inspectors
+	Prop        string
+	Tier        string
+	Seed        uint64
+	Out         *Out
+	Types       []*TypeEntry // generated inspectors (shipped, fresh, grammar)
+	ReflectOnly []*TypeEntry // declared shapes without a generated inspector (C02: ReflectInspector)
+	Lib         []*TypeEntry // built-in inspectors
 }
 
 func (p *Plan) Builtin(name string) *TypeEntry {
@@ -79,8 +80,21 @@ func Main() {
 		e.Tid = "b" + strconv.Itoa(i)
 	}
 	o.DeclareTypes(Registry)
+	var reflOnly []*TypeEntry
+	if *prop == "C02" {
+		for i, e := range ReflectOnly {
+			n, err := LoadXNode(e.XML)
+			if err != nil {
+				continue
+			}
+			e.Node = n
+			e.Tid = "r" + strconv.Itoa(i)
+			reflOnly = append(reflOnly, e)
+		}
+		o.DeclareTypes(reflOnly)
+	}
 	o.DeclareTypes(Builtins)
-	run(&Plan{Prop: *prop, Tier: *tier, Seed: *seed, Out: o, Types: Registry, Lib: Builtins})
+	run(&Plan{Prop: *prop, Tier: *tier, Seed: *seed, Out: o, Types: Registry, ReflectOnly: reflOnly, Lib: Builtins})
 	if err := o.Close(); err != nil {
 		fmt.Fprintln(os.Stderr, err)
 		os.Exit(2)
